@@ -101,6 +101,96 @@ theorem memory_frame_bytes (frames : List (List Nat)) (rows cols samples bits : 
   have : i * L + L - i * L = L := by omega
   rw [this, flatten_drop_take frames L hlen i hi]
 
+/-- bytes per frame as the in-memory path computes them: `bits * n_pixels / 8` with
+    `n_pixels = rows*cols*2` for YBR_FULL_422 and `rows*cols*samples` otherwise -/
+def frameBytes (rows cols samples bits : Nat) (pi : String) : Nat :=
+  bits * (if pi = "YBR_FULL_422" then rows * cols * 2 else rows * cols * samples) / 8
+
+/-- **Frames of >= 8 bits, in memory, every photometric interpretation** (YBR_FULL_422 stores 2 bytes per pixel). -/
+theorem memory_frame_bytes_any (frames : List (List Nat)) (rows cols samples bits : Nat) (pi : String)
+    (hb : bits ≠ 1)
+    (hlen : ∀ f ∈ frames, f.length = frameBytes rows cols samples bits pi)
+    (i : Nat) (hi : i < frames.length) :
+    memFrameBytes frames.flatten rows cols samples bits frames.length pi ((i : Int) + 1) false = .ok frames[i] := by
+  have h1 : stdFrameIndex ((i : Int) + 1) false frames.length = .ok (i : Int) := by
+    rw [stdFrameIndex_ok_iff]; simp; omega
+  unfold memFrameBytes memRaw
+  rw [h1]
+  simp only [bind, Except.bind]
+  unfold rawFrameRange
+  have hb' : (((bits : Int)) == 1) = false := by
+    have : (bits : Int) ≠ 1 := by exact_mod_cast hb
+    simpa using this
+  simp only [hb', Bool.false_and, Bool.false_eq_true, ↓reduceIte, fdiv_pos _ 8 (by omega)]
+  have e : (bits : Int) * (if (pi == "YBR_FULL_422") = true then (rows : Int) * cols * 2 else (rows : Int) * cols * samples) / 8
+      = ((frameBytes rows cols samples bits pi : Nat) : Int) := by
+    unfold frameBytes
+    by_cases hp : pi = "YBR_FULL_422"
+    · simp [hp]
+    · have : (pi == "YBR_FULL_422") = false := by simpa using hp
+      simp [hp, this]
+  rw [e]
+  generalize frameBytes rows cols samples bits pi = L at *
+  have e2 : (i : Int) * (L : Int) = ((i * L : Nat) : Int) := by push_cast; rfl
+  have e3 : ((i * L : Nat) : Int) + (L : Int) = ((i * L + L : Nat) : Int) := by push_cast; rfl
+  rw [e2, e3, slice_nat]
+  unfold pySlice
+  have : i * L + L - i * L = L := by omega
+  rw [this, flatten_drop_take frames L hlen i hi]
+
+/-- lazy path for >= 8 bits: offset `i * bytes_per_frame`, read length `bytes_per_frame` with
+    `bytes_per_frame = n_pixels * bits // 8` (n_pixels halved for YBR_FULL_422) -/
+theorem lazy_frame_bytes_any (frames : List (List Nat)) (rows cols samples bits : Nat) (pi : String)
+    (hb : bits ≠ 1) (hpos : 0 < frameBytes rows cols samples bits pi)
+    (hlen : ∀ f ∈ frames, f.length = frameBytes rows cols samples bits pi)
+    (i : Nat) (hi : i < frames.length) :
+    lazyFrameBytes frames.flatten rows cols samples bits frames.length pi ((i : Int) + 1) false = .ok frames[i] := by
+  have h1 : stdFrameIndex ((i : Int) + 1) false frames.length = .ok (i : Int) := by
+    rw [stdFrameIndex_ok_iff]; simp; omega
+  have h2 : lazyIndexGuard (i : Int) frames.length = .ok (i : Int) := by
+    rw [lazyIndexGuard_ok_iff]; omega
+  unfold lazyFrameBytes lazyRaw
+  rw [h1]
+  simp only [bind, Except.bind, h2]
+  have hb' : (((bits : Int)) == 1) = false := by
+    have : (bits : Int) ≠ 1 := by exact_mod_cast hb
+    simpa using this
+  have hbne : ¬ ((bits : Int) = 1) := by exact_mod_cast hb
+  have hbpf : lazyBytesPerFrame ((rows : Int) * cols * samples) bits pi rows cols
+      = .ok ((frameBytes rows cols samples bits pi : Nat) : Int) := by
+    unfold lazyBytesPerFrame frameBytes
+    simp only [hb', Bool.false_eq_true, ↓reduceIte, Bool.not_false, fdiv_pos _ 8 (by omega)]
+    by_cases hp : pi = "YBR_FULL_422"
+    · simp [hp]; congr 1; rw [Int.mul_comm]
+    · have : (pi == "YBR_FULL_422") = false := by simpa using hp
+      simp [hp, this]; congr 1; rw [Int.mul_comm]
+  rw [hbpf]
+  simp only [hbne, ↓reduceIte]
+  unfold lazyOffsetByte lazyReadLength
+  simp only [hb', Bool.false_eq_true, ↓reduceIte]
+  generalize hL : frameBytes rows cols samples bits pi = L at *
+  have e2 : (i : Int) * (L : Int) = ((i * L : Nat) : Int) := by push_cast; rfl
+  have e3 : ((i * L : Nat) : Int) + (L : Int) = ((i * L + L : Nat) : Int) := by push_cast; rfl
+  rw [e2, e3, slice_nat]
+  unfold pySlice
+  have : i * L + L - i * L = L := by omega
+  rw [this, flatten_drop_take frames L hlen i hi]
+  have : frames[i].length ≠ 0 := by rw [hlen _ (List.getElem_mem hi)]; omega
+  simp [this]
+
+/-- Hence lazy and in-memory access agree on every frame of every native image with >= 8 bits. -/
+theorem lazy_eq_memory_bytes (frames : List (List Nat)) (rows cols samples bits : Nat) (pi : String)
+    (hb : bits ≠ 1) (hpos : 0 < frameBytes rows cols samples bits pi)
+    (hlen : ∀ f ∈ frames, f.length = frameBytes rows cols samples bits pi)
+    (i : Nat) (hi : i < frames.length) :
+    lazyFrameBytes frames.flatten rows cols samples bits frames.length pi ((i : Int) + 1) false
+      = memFrameBytes frames.flatten rows cols samples bits frames.length pi ((i : Int) + 1) false := by
+  rw [lazy_frame_bytes_any frames rows cols samples bits pi hb hpos hlen i hi,
+      memory_frame_bytes_any frames rows cols samples bits pi hb hlen i hi]
+
+example : lazyFrameBytes [[1,2,3,4],[5,6,7,8]].flatten 1 2 3 8 2 "YBR_FULL_422" 2 false = .ok [5,6,7,8] :=
+  lazy_frame_bytes_any [[1,2,3,4],[5,6,7,8]] 1 2 3 8 "YBR_FULL_422" (by decide) (by decide) (by simp [frameBytes]) 1 (by simp)
+
 /-- Batch access is a map of single access in request order. -/
 theorem batch_eq_single (pd : List Nat) (rows cols samples N : Int) (ks : List Int) (asIndex : Bool)
     (out : List (List Bool)) (h : memFramesBits pd rows cols samples N ks asIndex = .ok out) :
